@@ -101,17 +101,17 @@ PROPS["C26"] = {
     "module": "c26_time",
     "level": MC,
     "technique": "Kani/CBMC symbolic execution of the three elapsed-time kernels with symbolic times-of-day (seconds, nanoseconds) on concrete calendar dates; exact i128 nanosecond oracle",
-    "kernels": ["Subscription::test_and_set_publishing_interval_elapsed", "MonitoredItem::tick (elapsed-time test)", "Subscriptions::expire_stale_publish_requests", "duration_from_ms"],
+    "kernels": ["Subscription::test_and_set_publishing_interval_elapsed", "MonitoredItem::tick (elapsed-time test)", "duration_from_ms"],
     "explanation": "now and the stored/client instant are symbolic (second of day, nanosecond) pairs on concrete dates (same day, a day later, a day earlier, "
                    "1601-01-01, 9999-12-31), so every ordering and every sub-day distance is inside each query. Asserted: no panic; interval-elapsed is true exactly when "
-                   "now - last >= interval and never when the clock went backwards; a queued publish request whose client timestamp lies in the future is kept (thorough tier; the branch that answers BadTimeout is not decided: 20 GB).",
-    "outside": "the BadTimeout-only-after-timeout half of the statement (expiry branch exhausts memory); symbolic calendar dates (chrono's calendar arithmetic does not solve); symbolic publishing/sampling interval and timeout values (concrete 250 ms / 30 s / 5 s: symbolic f64 multiplication and 64-bit division did not finish); Subscriptions::tick",
+                   "now - last >= interval and never when the clock went backwards; (Subscriptions::expire_stale_publish_requests has harnesses - c26_x_* - that are not registered: no reliable verdict within 30 GB).",
+    "outside": "queued publish requests (Subscriptions::expire_stale_publish_requests: the BadTimeout-only-after-timeout half of the statement and the client-timestamp panic site, repaired but not re-checkable); symbolic calendar dates (chrono's calendar arithmetic does not solve); symbolic publishing/sampling interval and timeout values (concrete 250 ms / 30 s / 5 s: symbolic f64 multiplication and 64-bit division did not finish); Subscriptions::tick",
     "assumptions": STD_CUTS + ["client timestamps have 100 ns resolution (OPC UA DateTime)"],
     "tiers": {
         "quick": {"groups": [{"filters": ["c26_q_"], "timeout": 1500, "jobs": 8}],
                   "bounds": "date pairs: same day, last tomorrow; interval 250 ms; unwind 2-3"},
         "thorough": {"groups": [{"filters": ["c26_q_", "c26_t_"], "timeout": 2400, "jobs": 8}],
-                     "bounds": "adds last yesterday; publish request timestamps tomorrow / 9999-12-31 with timeout 30 s (no panic, kept)"},
+                     "bounds": "adds last yesterday, item tick with the last sample a day later"},
     },
 }
 
